@@ -506,7 +506,7 @@ func (g *Gen) opStyle() (sim.Op, bool) {
 	switch {
 	case len(g.styles) == 0 || r.Chance(0.4):
 		g.tag++
-		id := fmt.Sprintf("Custom%d", g.tag)
+		id := fmt.Sprintf([]string{"Custom%d", "Custom%d", "My Style %d", "Body.Text(%d)", "样式%d", "a-b_%d"}[r.Intn(6)], g.tag)
 		g.styles = append(g.styles, id)
 		typ := r.Pick("paragraph", "paragraph", "character")
 		if r.Bool() {
